@@ -601,7 +601,7 @@ class Ref:
         """None -> default implementation (the body); else the overload implementation node."""
         lookup = {}
         for alias, impl in d.get("overloads", []):
-            for a in (alias if isinstance(alias, list) else [alias]):
+            for a in sem.alias_list(alias):
                 lookup[a] = impl
         abstract = d.get("abstract")
         if "dispatch" not in d:
